@@ -21,3 +21,32 @@ package annotation
 //@ func NewCallSiteParamKey
 //@ pure
 //@ nobody
+
+//@ func ParamKeyFromArgNum
+//@ pure
+//@ nobody
+//@ func RetKeyFromRetNum
+//@ pure
+//@ nobody
+
+//@ -- C09: direction of the affiliation triggers. A nil parameter flows from the interface method's parameter site to
+//@ -- the implementation's parameter site; a nil result flows from the implementation's result site to the interface's.
+//@ func FullTriggerForInterfaceParamFlow
+//@ prop C09
+//@ ensures produced-at-the-interface-parameter (let ((pa result.Producer.Annotation)) (and (is pa *InterfaceParamReachesImplementation)
+//@    (= (. (as pa *InterfaceParamReachesImplementation) TriggerIfNilable Ann) (iface *ParamAnnotationKey (call ParamKeyFromArgNum affiliation.InterfaceMethod paramNum)))
+//@    (= (. (as pa *InterfaceParamReachesImplementation) AffiliationPair) affiliation)))
+//@ ensures consumed-at-the-implementation-parameter (let ((ca result.Consumer.Annotation)) (and (is ca *MethodParamFromInterface)
+//@    (= (. (as ca *MethodParamFromInterface) TriggerIfNonNil Ann) (iface *ParamAnnotationKey (call ParamKeyFromArgNum affiliation.ImplementingMethod paramNum)))
+//@    (= (. (as ca *MethodParamFromInterface) AffiliationPair) affiliation)))
+//@ ensures uncontrolled (= result.Controller nil)
+
+//@ func FullTriggerForInterfaceResultFlow
+//@ prop C09
+//@ ensures produced-at-the-implementation-result (let ((pa result.Producer.Annotation)) (and (is pa *MethodResultReachesInterface)
+//@    (= (. (as pa *MethodResultReachesInterface) TriggerIfNilable Ann) (iface *RetAnnotationKey (call RetKeyFromRetNum affiliation.ImplementingMethod retNum)))
+//@    (= (. (as pa *MethodResultReachesInterface) AffiliationPair) affiliation)))
+//@ ensures consumed-at-the-interface-result (let ((ca result.Consumer.Annotation)) (and (is ca *InterfaceResultFromImplementation)
+//@    (= (. (as ca *InterfaceResultFromImplementation) TriggerIfNonNil Ann) (iface *RetAnnotationKey (call RetKeyFromRetNum affiliation.InterfaceMethod retNum)))
+//@    (= (. (as ca *InterfaceResultFromImplementation) AffiliationPair) affiliation)))
+//@ ensures uncontrolled (= result.Controller nil)
